@@ -281,12 +281,30 @@ func registerGob() {
 		case 4: // retag block i
 			*fieldOf(st.blocks[i], "Type") = mkBV(8, uint64(j))
 		case 5: // damage the checksum field of block i
-			*fieldOf(st.blocks[i], "CheckSum") = m.fresh("damagedChecksum", BV(64))
+			ncs := m.fresh("damagedChecksum", BV(64))
+			// the damaged field does not happen to be the checksum of a payload that an earlier fault has
+			// damaged (same 2^-64 event as the no-collision assumption of the payload faults)
+			if gb, _ := (*fieldOf(st.blocks[i], "Data")).(*ghostBytes); gb != nil {
+				if ocs, ok := (*fieldOf(st.blocks[i], "CheckSum")).(*Term); ok {
+					if eq := mkEq(gb.sum(m), ocs); !(eq.isC && eq.c == 1) {
+						noCollision(m, gb, ncs)
+					}
+				}
+			}
+			*fieldOf(st.blocks[i], "CheckSum") = ncs
 		case 6: // replace the payload of block i by the payload of block j (checksum field left alone)
 			if j < 0 || j >= n {
 				return falseT
 			}
 			*fieldOf(st.blocks[i], "Data") = *fieldOf(st.blocks[j], "Data")
+			// a foreign payload does not happen to have the checksum stored in this block
+			if gb, _ := (*fieldOf(st.blocks[i], "Data")).(*ghostBytes); gb != nil && i != j {
+				if ocs, ok := (*fieldOf(st.blocks[i], "CheckSum")).(*Term); ok {
+					if eq := mkEq(gb.sum(m), ocs); !(eq.isC && eq.c == 1) {
+						noCollision(m, gb, ocs)
+					}
+				}
+			}
 		case 7: // damage inside the payload of block i: items from j on are garbage (and the bytes differ)
 			gb, _ := (*fieldOf(st.blocks[i], "Data")).(*ghostBytes)
 			if gb == nil || j < 0 || j > len(gb.items) {
